@@ -201,6 +201,17 @@ where R: LLLRing, for<'x> &'x R: LLLRingOps<R> {
         while self.data.step < m { 
             self.iterate();
         }
+
+        // `reduce(i, k)` normalizes the pivot of row i only, and the last row 
+        // is never the reducing row: normalize the remaining pivots here. 
+        for i in 0..m { 
+            if let Some(j) = self.data.nz_col_in(i) { 
+                let u = self.data.target[(i, j)].normalizing_unit();
+                if !u.is_one() { 
+                    self.data.mul_row(i, &u);
+                }
+            }
+        }
     }
 
     fn iterate(&mut self) { 
